@@ -18,10 +18,15 @@ def main():
     here = os.path.dirname(os.path.abspath(__file__))
     exe = out + ".probe"
     inc = ["-I", cbuild, "-I", f"{repo}/include", "-I", f"{repo}/crypto/include"]
+    # crypto back end of this build (config.h written by the repo's cmake lists): decides which cipher types exist
+    cfgh = open(os.path.join(cbuild, "config.h")).read()
+    have_openssl = re.search(r"^#define\s+OPENSSL\b", cfgh, re.M) is not None
+    have_gcm = re.search(r"^#define\s+GCM\b", cfgh, re.M) is not None
     cmd = ["gcc", "-O0", "-w", "-DHAVE_CONFIG_H",
            f'-DSRTP_C="{repo}/srtp/srtp.c"', f'-DKEY_C="{repo}/crypto/kernel/key.c"',
            f'-DRDB_C="{repo}/crypto/replay/rdb.c"',
            *inc, f"{here}/constprobe.c", f"{cbuild}/libsrtp3.a",
+           *(["-lcrypto"] if have_openssl else []),
            "-fsanitize=address,undefined", "-o", exe]
     r = subprocess.run(cmd, capture_output=True, text=True)
     if r.returncode != 0:
@@ -35,6 +40,7 @@ def main():
             return f.read()
     srtp = src("srtp/srtp.c"); rdb = src("crypto/replay/rdb.c")
     hmac = src("crypto/hash/hmac.c"); icm = src("crypto/cipher/aes_icm.c")
+    gcm = src("crypto/cipher/aes_gcm_ossl.c")
     pats = [
         ("key_limit_init_c", srtp, r"srtp_key_limit_set\([^,]+,\s*(0x[0-9a-fA-F]+|\d+)", 0xffffffffffff),
         ("rtcp_ceiling_c", rdb, r"window_start\s*>=\s*(0x[0-9a-fA-F]+|\d+)\)\s*\{\s*return srtp_err_status_key_expired", 0x7fffffff),
@@ -47,7 +53,11 @@ def main():
         ("icm_max_blocks_c", icm, r"htons\(c->counter\.v16\[7\]\)\)\s*>\s*(0x[0-9a-fA-F]+|\d+)", 0xffff),
         ("kdf_keylen_small_c", srtp, r"kdf_keylen\s*=\s*(\d+),", 30),
         ("kdf_keylen_big_c", srtp, r"kdf_keylen = (\d+); /\* AES-CTR", 46),
+        ("GCM_AUTH_TAG_LEN_c", gcm, r"#define GCM_AUTH_TAG_LEN (\d+)", 16),
+        ("GCM_AUTH_TAG_LEN_8_c", gcm, r"#define GCM_AUTH_TAG_LEN_8 (\d+)", 8),
     ]
+    txt += f"Definition cfg_openssl_c : bool := {'true' if have_openssl else 'false'}.\n"
+    txt += f"Definition cfg_gcm_c : bool := {'true' if have_gcm else 'false'}.\n"
     warn = []
     for name, text, pat, pinned in pats:
         m = re.search(pat, text, re.S)
